@@ -406,6 +406,10 @@ func (p *OktaProvider) RefreshAccessToken(refreshToken string) (token string, ex
 	if err != nil {
 		return
 	}
+	if response.AccessToken == "" {
+		err = errors.New("missing access token in refresh response")
+		return
+	}
 
 	token = response.AccessToken
 	expires = time.Duration(response.ExpiresIn) * time.Second
